@@ -1653,6 +1653,8 @@ func filterRepeated(out *scenOut, verdict string) {
 		tea.WindowSizeMsg{Width: 80, Height: 24}, tea.FocusMsg{}, tea.BlurMsg{},
 		tea.KeyMsg{Type: tea.KeyRunes, Runes: []rune{'x'}}, tea.MouseMsg{X: 3, Y: 4}, userMsg{6, 0},
 		tea.HideCursor(), tea.EnableReportFocus(), tea.ClearScreen(),
+		// messages whose VALUE is nil but which are not the nil message: a nil slice, map, pointer
+		nilListMsg(nil), nilMapMsg(nil), (*ptrMsg)(nil),
 	}
 	var mu sync.Mutex
 	seen := map[string]int{}
@@ -1992,3 +1994,9 @@ func seqWhileLoopBusyLong(out *scenOut, batch bool) {
 		out.fail(finding{Property: "C03", Class: "new", What: "messages of a sequence reached Update out of order", Input: desc, Observed: strings.Join(ups, " ")})
 	}
 }
+
+// message types of reference kinds: their zero value is a nil slice / map / pointer, which is a
+// perfectly good message (an empty result list, …), not "no message"
+type nilListMsg []string
+type nilMapMsg map[string]int
+type ptrMsg struct{ n int }
